@@ -351,7 +351,7 @@ next:
 			return 0, err, false
 		}
 		switch m.typ {
-		case typeSimpleString, typeFloat, typeBigNumber:
+		case typeSimpleString, typeFloat, typeBigNumber, typeBlobString, typeVerbatimString:
 			n, err := w.Write([]byte(m.string()))
 			return int64(n), err, true
 		case typeNull:
